@@ -19,7 +19,9 @@ ReqVerdict(o) ==
       reqs == Effective(raw, ni)          \* alternatives with a not-implemented scheme were dropped by configuration
       cred == Cred(o)
       callsOK == \A i \in 1..Len(o.calls) : cred[o.calls[i]] # "absent" /\ o.res[i] = cred[o.calls[i]]
-      impl == ImplOutcome(raw, ni, cred) IN
+      rtDevs == KnownDeviations \cap {"Dev_RejectedCredentialDenies"}
+      impl == ImplOutcome(raw, ni, cred, rtDevs)
+      strict == ImplOutcome(raw, ni, cred, {}) IN
   \* every alternative dropped: the statement does not say what an operation whose
   \* requirements cannot be expressed should do; only "no crash" is judged
   IF ni # {} /\ reqs = <<>> THEN (IF o.outcome \in {"handler", "401"} THEN "ok" ELSE "viol")
@@ -27,6 +29,10 @@ ReqVerdict(o) ==
           /\ (o.outcome = "401") = (o.status = 401)
           /\ callsOK
   THEN (IF impl.pc = o.outcome /\ impl.calls = o.calls THEN "ok" ELSE "drift")
+  \* recorded finding: exactly what the fail-closed block does, where the statement wants the handler
+  ELSE IF /\ rtDevs # {} /\ o.outcome = "401" /\ o.status = 401 /\ callsOK
+          /\ impl.pc = "401" /\ impl.calls = o.calls /\ strict.pc = "handler"
+  THEN "known=Dev_RejectedCredentialDenies"
   ELSE "viol"
 
 GenVerdict(o) ==
